@@ -402,6 +402,9 @@ class Check:
             'notes': self.notes,
         }
         cov.update(self.cov)
+        if self.level == 'translation_validation':
+            cov.setdefault('programs', len(self.distinct))
+            cov.setdefault('disagreements_checked', len(self.violations) + len(self.known_hits))
         ev = {'property_id': self.pid, 'tier': self.tier, 'seed': self.seed, 'level': self.level,
               'coverage': cov, 'assumptions': self.assumptions, 'wall_s': round(wall, 2),
               'violations': len(self.violations)}
